@@ -283,6 +283,7 @@ func zzWellFormed(tag string, r *Replica) {
 			dd := r.diskData[n]
 			zzAssert(dd != nil, tag+".chain-member-without-diskData")
 			if dd != nil {
+				zzAssert(r.volume.UserCreatedSnap[k] == dd.UserCreated, tag+".UserCreatedSnap-flag-at-wrong-index")
 				if dd.UserCreated && k > snapIndx {
 					snapIndx = k
 				}
@@ -297,6 +298,11 @@ func zzWellFormed(tag string, r *Replica) {
 	}
 	if len(ch) > 1 {
 		zzAssert(r.info.Parent == ch[1], tag+".info.Parent")
+	}
+	// the children relation mirrors the chain: member i is the only child of member i+1
+	for i := 1; i < len(ch); i++ {
+		kids := r.diskChildrenMap[ch[i]]
+		zzAssert(kids[ch[i-1]], tag+".children-map-misses-chain-link")
 	}
 	for _, n := range ch {
 		_, okData := zzfs.Cur.Entries[n]
